@@ -2485,6 +2485,10 @@ class Evaluator:
                             return self.apply(callee, a2, kwargs, fr, node)
                         return _map_leaves(a, alt)
             return X.ext_call(self, callee[1], args, kwargs, fr, node)
+        if T.is_op(callee, 'PARTIAL') and len(callee) == 5 and T.tag(callee[3]) == 'tuple' and T.tag(callee[4]) == 'dict':
+            kw2 = {k_[1]: v_ for k_, v_ in callee[4][1]}
+            kw2.update(kwargs)
+            return self.apply(callee[2], list(callee[3][1]) + list(args), kw2, fr, node)
         if T.is_op(callee, 'WEAKREF') and not args and not kwargs:
             # the referent while something else keeps it alive, else None - which of the two is not a function of the
             # program's inputs (an environment condition, like the presence of an OpenSSL algorithm)
